@@ -74,10 +74,24 @@ fn arb_dbop() -> BoxedStrategy<DbOp> {
 pub fn arb_db_case() -> BoxedStrategy<DbCase> {
     let step = prop_oneof![
         3 => vec(arb_dbop(), 1..8).prop_map(Step::Transaction),
-        3 => (arb_t(), prop_oneof![4 => 0u16..4, 1 => Just(65533u16), 1 => any::<u16>()], 1u16..6).prop_map(|(t, s, c)| Step::ClientRead(t, s, c)),
+        3 => (arb_t(), prop_oneof![4 => 0u16..4, 2 => 65530u16..=65535, 1 => any::<u16>()], 1u16..6).prop_map(|(t, s, c)| Step::ClientRead(t, s, c)),
     ];
-    (vec(arb_dbop(), 0..12), vec(step, 1..14))
-        .prop_map(|(configure, steps)| DbCase { configure, steps })
+    (vec(arb_dbop(), 0..12), vec(step, 1..14), prop::bool::weighted(0.4), any::<u16>())
+        .prop_map(|(mut configure, steps, prefill, v)| {
+            // in 40% of the cases the points at both ends of the address space exist from the
+            // start, so that reads of several points find all of them present
+            if prefill {
+                let mut pre = Vec::new();
+                for t in [T::Coil, T::Discrete, T::Holding, T::Input] {
+                    for i in [0u16, 1, 2, 3, 65532, 65533, 65534, 65535] {
+                        pre.push(DbOp::Add(t, i, v.wrapping_mul(i | 1).wrapping_add(i)));
+                    }
+                }
+                pre.extend(configure);
+                configure = pre;
+            }
+            DbCase { configure, steps }
+        })
         .boxed()
 }
 
@@ -343,6 +357,8 @@ pub fn check_db(case: &DbCase) -> CaseResult {
     let mut deleted: Vec<(T, u16)> = Vec::new();
     let mut update_absent = false;
     let mut read_absent = false;
+    let mut read_top = false;
+    let mut read_top_present = false;
     for (si, step) in case.steps.iter().enumerate() {
         match step {
             Step::Transaction(ops) => {
@@ -430,6 +446,12 @@ pub fn check_db(case: &DbCase) -> CaseResult {
                 if absent {
                     read_absent = true;
                 }
+                if *start as u32 + *count as u32 == 65536 {
+                    read_top = true;
+                    if !absent {
+                        read_top_present = true;
+                    }
+                }
                 if reply != expect {
                     return Err(format!(
                         "step {}: client read {:?} {}+{} answered {:02X?}, the map model says {:02X?}",
@@ -447,6 +469,12 @@ pub fn check_db(case: &DbCase) -> CaseResult {
     }
     if read_absent {
         ok.label("read_touching_absent_point");
+    }
+    if read_top {
+        ok.label("read_ending_at_65535");
+    }
+    if read_top_present {
+        ok.label("read_ending_at_65535_all_present");
     }
     ok.nontrivial = seen_delete_then_add && update_absent;
     drop(stream);
